@@ -409,6 +409,30 @@ func runCodec(c *core.Ctx, keep func(*codecPair) bool) {
 				c.Check(len(m) > 0, construct("A4 "+s), pos, "payload member is written from "+setStr(m), "decoder reads payload member "+member+" which the encoder never sets")
 			}
 		}
+		// A9: a field that travels ONLY in the wire message must be read back from the wire message
+		if cp.Enc != nil && cp.Enc.Blocks != nil && !msgConstEmpty && len(msgDeps) > 0 {
+			elsewhere := map[string]bool{}
+			for _, r := range sx.Returns(cp.Enc) {
+				for _, idx := range []int{1, 2} {
+					if idx < len(r.Results) {
+						for _, o := range e.TraceRecv(r.Results[idx], nil).List() {
+							collectRecv(o, elsewhere, 0)
+						}
+					}
+				}
+			}
+			var only []string
+			for f := range msgDeps {
+				if !elsewhere[f] {
+					only = append(only, f)
+				}
+			}
+			sort.Strings(only)
+			if len(only) > 0 {
+				c.Check(allSlots["MSG"], construct("A9 message-only fields"), pos, "the decoder rebuilds from the wire message what only the message carries ("+strings.Join(only, ", ")+")",
+					"field(s) "+strings.Join(only, ", ")+" of the type travel only in the wire message, but the decoder does not use the message it receives: the value is recomputed from something else and the text can differ after a hop")
+			}
+		}
 		// A5 / A6 / A7 need the struct view
 		if builtType == nil {
 			continue
